@@ -190,7 +190,12 @@ pub fn run(tier: Tier) -> i32 {
     {
         let locs = ["en", "fr", "de", "it"];
         for m in vmodel::gen::inherits_maps(&locs) {
-            let (p, _) = vmodel::gen::build_project(&locs, &m);
+            let (mut p, _) = vmodel::gen::build_project(&locs, &m);
+            // (the locales declared in every order, rotating with the map index: which locale a value is taken from
+            // does not depend on where the default stands in the list)
+            let perms = vmodel::enumerate::permutations(locs.len());
+            let perm = &perms[projects.len() % perms.len()];
+            p.cfg.locales = Some(perm.iter().map(|k| locs[*k].to_string()).collect());
             projects.push(("inherits".into(), p));
         }
     }
@@ -216,7 +221,7 @@ pub fn run(tier: Tier) -> i32 {
     }
     let mut cov = serde_json::Map::new();
     cov.insert("rule".into(), json!(format!(
-        "every forest of Text|Var{{x,y}}|Comp{{b,i}} with <= {max_nodes} nodes (sizes {per_size:?}), labelled with self-identifying text and rotating payloads {:?}; every whitespace combination at the 5 tag and 2 variable positions on <= 2-node forests; every ordered payload pair in 7 contexts; all pairs of 14 literal values; the value kinds under every inherits map of a four-locale set (625 projects: presence patterns, groups, values rendering as nothing); each value placed at top level, in subkeys depth 3 and in two namespaces with swapped values; distinct_nontrivial = distinct (en,fr) value pairs", PAYLOADS)));
+        "every forest of Text|Var{{x,y}}|Comp{{b,i}} with <= {max_nodes} nodes (sizes {per_size:?}), labelled with self-identifying text and rotating payloads {:?}; every whitespace combination at the 5 tag and 2 variable positions on <= 2-node forests; every ordered payload pair in 7 contexts; all pairs of 14 literal values; the value kinds under every inherits map of a four-locale set declared in every order (625 projects: presence patterns, groups, values rendering as nothing); each value placed at top level, in subkeys depth 3 and in two namespaces with swapped values; distinct_nontrivial = distinct (en,fr) value pairs", PAYLOADS)));
     cov.insert("exhaustive".into(), json!(true));
     cov.insert("bound".into(), json!({"max_nodes": max_nodes, "ws_values": ws_vals.len(), "projects": projects.len(), "keys_per_project": chunk}));
     cov.insert("key_locale_comparisons".into(), json!(*keys_total.lock().unwrap()));
